@@ -113,7 +113,11 @@ type input struct {
 	Name  string `json:"name"`
 	State string `json:"state"`
 	Net   bool   `json:"net,omitempty"`
-	Kind  string `json:"kind,omitempty"` // "" = history, "f26-stress"
+	Kind  string `json:"kind,omitempty"` // "" = history, "f26-stress", "race-deliver-done"
+	// race-deliver-done: who closes the instance while the delivery is held at its
+	// wake-up ("done", "close" = Overlay.Close) and who delivers ("flush" = the flush
+	// goroutine of checkPendingMessages delivers a parked message, closed by Done)
+	Variant string `json:"variant,omitempty"`
 	// Continue: keep going after a leaked mutex / failed canary (default: the history
 	// ends at the first operation that breaks the property)
 	Continue bool  `json:"continue,omitempty"`
@@ -237,6 +241,7 @@ type world struct {
 	scans     int64
 	tracked   []int
 	trackTok  []jtok
+	sched     *lib.Sched
 }
 
 func hashUUID(kind string, n int) uuid.UUID {
@@ -369,7 +374,15 @@ func newWorld(netMode bool) (*world, error) {
 // instances and the schedule points report to it
 func (w *world) activate() {
 	curWorld.Store(w)
+	if w.sched == nil {
+		w.sched = lib.NewSched()
+	}
 	onet.SetVerifHook(func(point string, args ...interface{}) {
+		if point == "tni.notify" {
+			// the wake-up of an instance's reader: only the race scenarios hold it
+			w.sched.Hook(point, args...)
+			return
+		}
 		if len(args) == 0 || args[0] != interface{}(w.ov) {
 			return // a goroutine of an earlier case's server
 		}
@@ -1236,6 +1249,8 @@ func workerMain() {
 				emit(workerOut{Fail: "bad input: " + e.Error()})
 			} else if in.Kind == "f26-stress" {
 				runStress(&in, emit)
+			} else if in.Kind == "race-deliver-done" {
+				runRace(&in, emit)
 			} else {
 				runCase(&in, emit)
 			}
@@ -1381,6 +1396,140 @@ func runStress(in *input, emit func(workerOut)) {
 	os.Exit(0) // thousands of live instances: do not wait for a clean shutdown
 }
 
+// race-deliver-done: a peer's protocol message is being handed to an instance (held at
+// the wake-up of the instance's reader, schedule point tni.notify) while the instance is
+// closed. ProcessProtocolMsg checks "closing", appends and wakes the reader in one
+// critical section, so the closer has to wait; if the wake-up happened outside it, the
+// send on the channel that the closer has closed would panic in a goroutine without
+// recover. Everything goes through real TCP connections; the exit of this process is the
+// crash oracle.
+type raceOut struct {
+	Hit         bool   `json:"hit"`          // the delivery reached the wake-up
+	DoneBlocked bool   `json:"done_blocked"` // the closer was still waiting after 300 ms (expected: it needs the mutex)
+	Served      bool   `json:"served"`
+	Note        string `json:"note,omitempty"`
+}
+
+func (w *world) netSend(p int, m *jmsg) chan struct{} {
+	msg, _ := w.message(m)
+	w.mu.Lock()
+	w.nextMark++
+	k := w.nextMark
+	ch := make(chan struct{})
+	w.markers[k] = ch
+	w.mu.Unlock()
+	if _, err := w.peers[p].r.Send(w.x.ServerIdentity, msg, &Marker{N: k}); err != nil {
+		close(ch)
+	}
+	return ch
+}
+
+func waitCh(ch chan struct{}, d time.Duration) bool {
+	select {
+	case <-ch:
+		return true
+	case <-time.After(d):
+		return false
+	}
+}
+
+func runRace(in *input, emit func(workerOut)) {
+	res := raceOut{}
+	finish := func() {
+		b, _ := json.Marshal(res)
+		emit(workerOut{Extra: string(b)})
+		emit(workerOut{Done: true})
+	}
+	w, err := newWorld(true)
+	if err != nil {
+		emit(workerOut{Fail: err.Error()})
+		return
+	}
+	w.activate()
+	canary := legitPing(1, 90, "pingreply")
+	canary.Canary, canary.XTok, canary.XFrom = "run", legitTok(1, 90), 1
+	in.Ops = []jop{legitPing(1, 11, "ping"), legitPing(2, 12, "ping"), canary}
+	w.track(in)
+	w.ov.RegisterTree(w.trees[1])
+	tree, round := 1, 11
+	if in.Variant == "flush" {
+		tree, round = 2, 12
+	}
+	target := w.tok(legitTok(tree, round)).ID()
+	// (1) a legitimate run with a live instance (done / close), or a parked message (flush)
+	first := legitPing(tree, round, "ping")
+	if !waitCh(w.netSend(first.P, first.M), longWait) {
+		res.Note = "first message not processed"
+		finish()
+		return
+	}
+	if s := w.settle(); s != "" {
+		res.Note = s
+		finish()
+		return
+	}
+	// (2) hold the next delivery to that instance at the wake-up
+	gate := w.sched.Block("tni.notify", 1, func(args []interface{}) bool {
+		n, ok := args[0].(*onet.TreeNodeInstance)
+		return ok && n.Token().ID().Equal(target)
+	})
+	var sent chan struct{}
+	if in.Variant == "flush" {
+		r := legitResp(2)
+		sent = w.netSend(r.P, r.M) // handleSendTree -> RegisterTree -> flush goroutine -> TransmitMsg
+	} else {
+		sent = w.netSend(first.P, first.M)
+	}
+	if !gate.WaitHit(longWait) {
+		gate.Release()
+		res.Note = "the delivery did not reach the wake-up (schedule point tni.notify missing?)"
+		finish()
+		return
+	}
+	res.Hit = true
+	// (3) close the instance meanwhile
+	w.mu.Lock()
+	p := w.protos[target]
+	w.mu.Unlock()
+	closed := make(chan struct{})
+	go func() {
+		defer close(closed)
+		if in.Variant == "close" {
+			w.ov.Close()
+		} else if p != nil {
+			p.Done()
+		}
+	}()
+	res.DoneBlocked = !waitCh(closed, 300*time.Millisecond)
+	// (4) let the delivery go on
+	gate.Release()
+	if !waitCh(closed, longWait) {
+		res.Note = "the closer never returned"
+	}
+	if !waitCh(sent, longWait) {
+		res.Note += " the delivery never returned"
+	}
+	// the flush goroutine (variant flush) and the instance readers run to quiescence: a
+	// panic in one of them ends the process here
+	if s := w.settle(); s != "" {
+		res.Note += " " + s
+	}
+	// (5) the server still serves
+	if in.Variant == "close" {
+		res.Served = true // the overlay has been closed by the harness itself
+	} else {
+		o := w.exec(2, canary, in.Ops[:2])
+		res.Served = canaryServed(canary, o, map[string]bool{})
+		for _, d := range o.Delivs {
+			if d == fmt.Sprintf("(%s, %d)", tokTerm(canary.XTok), canary.XFrom) {
+				res.Served = true
+			}
+		}
+	}
+	finish()
+	os.Exit(0)
+}
+
 // ---- parent side: talking to workers ------------------------------------------------------
 
 type worker struct {
@@ -1508,6 +1657,25 @@ func run(raw json.RawMessage) lib.Case {
 		coq := fmt.Sprintf("mkStress %s %s", lib.Bool(aborted), lib.Bool(freeScans))
 		return lib.Case{Coq: coq, Class: "f26-stress/" + map[bool]string{true: "aborted", false: "survived"}[aborted],
 			Obs: map[string]interface{}{"trace": trace, "worker": extra}, Nontrivial: true, Key: "f26"}
+	}
+	if in.Kind == "race-deliver-done" {
+		var ro raceOut
+		json.Unmarshal([]byte(extra), &ro)
+		class := "race-deliver-done/" + in.Variant
+		if !died && !ro.Hit {
+			// the interleaving could not be forced (schedule point absent, scenario not reached)
+			return lib.Case{Discard: true, Class: class, Obs: ro.Note + " " + fail}
+		}
+		variant := map[string]int{"done": 0, "close": 1, "flush": 2}[in.Variant]
+		verdict := "ok"
+		if died {
+			verdict = "crash"
+		} else if !ro.Served {
+			verdict = "unserved"
+		}
+		coq := fmt.Sprintf("mkRace %d %s %s", variant, lib.Bool(died), lib.Bool(ro.Served))
+		return lib.Case{Coq: coq, Class: class + "/" + verdict,
+			Obs: map[string]interface{}{"process": trace, "worker": ro}, Nontrivial: true, Key: "race-" + in.Variant + verdict}
 	}
 	if fail != "" && len(os_) == 0 {
 		return lib.Case{Discard: true, Class: in.State + "/" + mode, Obs: fail}
@@ -1806,6 +1974,12 @@ func generate(rng *rand.Rand, tier string) []interface{} {
 		g := &gen{rng: rng, avoid: i%3 != 0, net: true}
 		ins = append(ins, g.history(states[i%len(states)]))
 	}
+	if tier != "quick" {
+		for i := 0; i < 30; i++ {
+			v := []string{"done", "close", "flush"}[i%3]
+			ins = append(ins, input{Name: fmt.Sprintf("race-deliver-done-%s-%d", v, i), State: "midrun", Kind: "race-deliver-done", Variant: v})
+		}
+	}
 	return ins
 }
 
@@ -1875,6 +2049,10 @@ func corpus() []interface{} {
 		legitPing(1, 21, "ping"))
 	ins = append(ins, wedge)
 	ins = append(ins, input{Name: "f26-stress", State: "midrun", Kind: "f26-stress"})
+	// a peer's message handed to an instance at the moment the instance is closed
+	for _, v := range []string{"done", "close", "flush"} {
+		ins = append(ins, input{Name: "race-deliver-done-" + v, State: "midrun", Kind: "race-deliver-done", Variant: v})
+	}
 	return ins
 }
 
